@@ -47,6 +47,13 @@ class WorldA:
         self.log.add("VIOLATION", prop, cls, msg)
         raise v
 
+    def note(self, prop: str, cls: str, msg: str, sig: Optional[str] = None, detail: Any = None) -> None:
+        """Record a violation without stopping the run (one per signature)."""
+        v = Violation(prop, cls, msg, sig, detail)
+        if not any(x.sig == v.sig for x in self.result.violations):
+            self.log.add("VIOLATION", prop, cls, msg)
+            self.result.violations.append(v)
+
     def now(self) -> float:
         return self.clock.peek()
 
